@@ -189,8 +189,9 @@ class BNHistory:
                             break
                         bump("syntactic")
                     continue
-                x = arr("x%d" % nfw, self.shape) if ev == "fw" else last_x
-                nfw += 1 if ev == "fw" else 0
+                # "fw_other": a batch of another size (the short last batch of an epoch): every batch counts once in the cumulative average, whatever its size
+                x = arr("x%d" % nfw, self.shape) if ev == "fw" else (arr("x%d" % nfw, (self.shape[0] + 1,) + tuple(self.shape[1:])) if ev == "fw_other" else last_x)
+                nfw += 1 if ev in ("fw", "fw_other") else 0
                 last_x = x
                 rm_obj = None if not self.track else L.running_mean.data
                 rv_obj = None if not self.track else L.running_var.data
@@ -276,7 +277,7 @@ class BNHistory:
         rng = random.Random("%s|%d" % (self.key, seed))
         C = self.shape[1]
         point = {"mom": 0.1 + 0.5 * rng.random(), "eps": 0.01 + rng.random() * 0.1}
-        for nm, sh, pos in [("gamma", (C,), False), ("beta", (C,), False), ("rm", (C,), False), ("rv", (C,), True)] + [("x%d" % i, self.shape, False) for i in range(len(self.events))]:
+        for nm, sh, pos in [("gamma", (C,), False), ("beta", (C,), False), ("rm", (C,), False), ("rv", (C,), True)] + [("x%d" % i, (self.shape[0] + 1,) + tuple(self.shape[1:]), False) for i in range(len(self.events))]:
             for n in var_names(nm, sh):
                 point[n] = rng.uniform(0.3, 2.0) * (1 if pos else rng.choice([-1, 1]))
         rep = {"inputs": point, "history": list(self.events)}
@@ -299,8 +300,8 @@ class BNHistory:
                         if self.track and not (np.array_equal(before[0], L.running_mean.data) and np.array_equal(before[1], L.running_var.data)):
                             bad.append(("running statistics changed by backward", ei))
                         continue
-                    x = arr("x%d" % nfw, self.shape) if ev == "fw" else last_x
-                    nfw += 1 if ev == "fw" else 0
+                    x = arr("x%d" % nfw, self.shape) if ev == "fw" else (arr("x%d" % nfw, (self.shape[0] + 1,) + tuple(self.shape[1:])) if ev == "fw_other" else last_x)
+                    nfw += 1 if ev in ("fw", "fw_other") else 0
                     last_x = x
                     out = L(Tensor(x.copy(), requires_grad=True))
                     if training and self.track:
@@ -400,14 +401,14 @@ def cases(tier, seed):
     for cls, shs in shapes.items():
         for shape in shs:
             for affine, track in itertools.product([True, False], repeat=2):
-                for mom in ("symbolic", None, 0.25):
-                    if mom == 0.25 and not (affine and track):
+                for mom in ("symbolic", None, 0.25, 0.0, 1.0):      # 0.0 = "never move the running statistics" and 1.0 = "last batch only" are legal end points, not "no momentum"
+                    if mom in (0.25, 0.0, 1.0) and not (affine and track):
                         continue
                     for h in (hist if (affine and track) or tier == "thorough" else hist[2:4] + hist[6:7]):
                         cs.append(BNHistory(cls, shape, affine, track, mom, h))
                     # the layer's parameters are frozen / thawed, or its track_running_stats flag is switched after construction, in the middle of a history
-                    if track and mom != 0.25:
-                        extra = [("fw", "flag_off", "fw", "eval", "fw", "again"), ("flag_off", "eval", "fw", "flag_on", "train", "fw"), ("fw", "eval", "flag_off", "fw", "bw")]
+                    if track and mom not in (0.25, 0.0, 1.0):
+                        extra = [("fw", "fw_other", "eval", "fw"), ("fw_other", "fw", "fw_other", "eval", "fw_other"), ("fw", "flag_off", "fw", "eval", "fw", "again"), ("flag_off", "eval", "fw", "flag_on", "train", "fw"), ("fw", "eval", "flag_off", "fw", "bw")]
                         if affine:
                             extra += [("fw", "freeze", "fw", "fw", "eval", "fw"), ("freeze", "fw", "unfreeze", "fw", "eval", "fw"), ("fw", "freeze", "eval", "fw", "train", "fw", "bw")]
                         for h in extra:
